@@ -2,96 +2,123 @@
 
     Proved for the part of region 1 (and of the metastable liquid below the saturation
     pressure) on which plain interval arithmetic closes the sign of gamma_pipi:
-        0 <= t <= 260 degC:    0     <= p <= 100 MPa
-        260 < t <= 300 degC:   25 MPa <= p <= 100 MPa
-        300 < t <= 350 degC:   50 MPa <= p <= 100 MPa
-    In the remaining corner (hot liquid close to saturation) the 34-term sum cancels to
-    1/9000 of its largest term; bisection in two variables does not close there (measured, see
+        0 <= t <= 260 degC:    0       <= p <= 100 MPa      (includes the metastable liquid below psat)
+        260 < t <= 285 degC:   psat(t) <= p <= 100 MPa      (all of region 1 at these temperatures)
+        285 < t <= 300 degC:   12.5 MPa <= p;   300 < t <= 312: 17.5 MPa <= p;   312 < t <= 326: 25 MPa <= p;
+        326 < t <= 338 degC:   30 MPa <= p;     338 < t <= 350: 40 MPa <= p
+    (38 rectangles; the lower pressure limits follow the line where the 34-term sum cancels to about
+    1/200 of its largest term).  In the remaining strip between the saturation curve and those limits
+    the cancellation reaches 1/9000; bisection in two variables does not close there (measured, see
     reports/C14.md); that part stays with the sampled oracle. *)
 From Coq Require Import ZArith QArith Qreals Reals List Bool Lra.
 From Coquelicot Require Import Coquelicot.
 From Interval Require Import Tactic.
 From Gen Require Import GenIAPWS GenTraced.
 From P Require Import Expr RunR Deriv Potential Mono1
-  Mono1TilesA Mono1TilesB Mono1TilesC Mono1TilesD Mono1TilesE Mono1TilesF Mono1TilesG Mono1TilesH.
+  Mono1TilesA Mono1TilesB Mono1TilesC Mono1TilesD Mono1TilesE Mono1TilesF Mono1TilesG Mono1TilesH
+  Mono1TilesI Mono1TilesJ Mono1TilesK Mono1TilesL Formulas SatInv SatRange.
 Import ListNotations.
 Close Scope Q_scope.
 Open Scope R_scope.
 
-Definition in_dom1 (tk p : R) : Prop :=
-  273 <= tk <= 624 /\ 0 <= p <= 100000000 /\ (534 < tk -> 25000000 <= p) /\ (574 < tk -> 50000000 <= p).
+Definition plow1 (tk : R) : R :=
+  if Rle_dec tk 300 then 0 else
+  if Rle_dec tk 350 then 0 else
+  if Rle_dec tk 400 then 0 else
+  if Rle_dec tk 450 then 0 else
+  if Rle_dec tk 500 then 0 else
+  if Rle_dec tk 534 then 0 else
+  if Rle_dec tk 545 then 4700000 else
+  if Rle_dec tk 560 then 5600000 else
+  if Rle_dec tk 574 then 12500000 else
+  if Rle_dec tk 586 then 17500000 else
+  if Rle_dec tk 600 then 25000000 else
+  if Rle_dec tk 612 then 30000000 else
+  40000000.
+
+Definition in_dom1 (tk p : R) : Prop := 273 <= tk <= 624 /\ (0 <= p /\ plow1 tk <= p <= 100000000).
 
 (** the rectangles of Mono1Tiles*.v cover the domain *)
 Lemma gpp_neg tk p : in_dom1 tk p -> gpp tk p < 0.
 Proof.
-  intros (Ht & Hp & H25 & H50).
+  intros (Ht & Hp). unfold plow1 in Hp. revert Hp.
   destruct (Rle_dec tk 300).
-  {
+  { intros Hp.
     destruct (Rle_dec p 12500000); [pose proof (tile_273_300_0_125 tk p ltac:(lra) ltac:(lra)); lra|].
     destruct (Rle_dec p 25000000); [pose proof (tile_273_300_125_250 tk p ltac:(lra) ltac:(lra)); lra|].
     destruct (Rle_dec p 50000000); [pose proof (tile_273_300_250_500 tk p ltac:(lra) ltac:(lra)); lra|].
     pose proof (tile_273_300_500_1000 tk p ltac:(lra) ltac:(lra)); lra.
   }
   destruct (Rle_dec tk 350).
-  {
+  { intros Hp.
     destruct (Rle_dec p 12500000); [pose proof (tile_300_350_0_125 tk p ltac:(lra) ltac:(lra)); lra|].
     destruct (Rle_dec p 25000000); [pose proof (tile_300_350_125_250 tk p ltac:(lra) ltac:(lra)); lra|].
     destruct (Rle_dec p 50000000); [pose proof (tile_300_350_250_500 tk p ltac:(lra) ltac:(lra)); lra|].
     pose proof (tile_300_350_500_1000 tk p ltac:(lra) ltac:(lra)); lra.
   }
   destruct (Rle_dec tk 400).
-  {
+  { intros Hp.
     destruct (Rle_dec p 12500000); [pose proof (tile_350_400_0_125 tk p ltac:(lra) ltac:(lra)); lra|].
     destruct (Rle_dec p 25000000); [pose proof (tile_350_400_125_250 tk p ltac:(lra) ltac:(lra)); lra|].
     destruct (Rle_dec p 50000000); [pose proof (tile_350_400_250_500 tk p ltac:(lra) ltac:(lra)); lra|].
     pose proof (tile_350_400_500_1000 tk p ltac:(lra) ltac:(lra)); lra.
   }
   destruct (Rle_dec tk 450).
-  {
+  { intros Hp.
     destruct (Rle_dec p 12500000); [pose proof (tile_400_450_0_125 tk p ltac:(lra) ltac:(lra)); lra|].
     destruct (Rle_dec p 25000000); [pose proof (tile_400_450_125_250 tk p ltac:(lra) ltac:(lra)); lra|].
     destruct (Rle_dec p 50000000); [pose proof (tile_400_450_250_500 tk p ltac:(lra) ltac:(lra)); lra|].
     pose proof (tile_400_450_500_1000 tk p ltac:(lra) ltac:(lra)); lra.
   }
   destruct (Rle_dec tk 500).
-  {
+  { intros Hp.
     destruct (Rle_dec p 12500000); [pose proof (tile_450_500_0_125 tk p ltac:(lra) ltac:(lra)); lra|].
     destruct (Rle_dec p 25000000); [pose proof (tile_450_500_125_250 tk p ltac:(lra) ltac:(lra)); lra|].
     destruct (Rle_dec p 50000000); [pose proof (tile_450_500_250_500 tk p ltac:(lra) ltac:(lra)); lra|].
     pose proof (tile_450_500_500_1000 tk p ltac:(lra) ltac:(lra)); lra.
   }
   destruct (Rle_dec tk 534).
-  {
+  { intros Hp.
     destruct (Rle_dec p 12500000); [pose proof (tile_500_534_0_125 tk p ltac:(lra) ltac:(lra)); lra|].
     destruct (Rle_dec p 25000000); [pose proof (tile_500_534_125_250 tk p ltac:(lra) ltac:(lra)); lra|].
     destruct (Rle_dec p 50000000); [pose proof (tile_500_534_250_500 tk p ltac:(lra) ltac:(lra)); lra|].
     pose proof (tile_500_534_500_1000 tk p ltac:(lra) ltac:(lra)); lra.
   }
+  destruct (Rle_dec tk 545).
+  { intros Hp.
+    destruct (Rle_dec p 25000000); [pose proof (tile_534_545_47_250 tk p ltac:(lra) ltac:(lra)); lra|].
+    destruct (Rle_dec p 50000000); [pose proof (tile_534_560_250_500 tk p ltac:(lra) ltac:(lra)); lra|].
+    pose proof (tile_534_560_500_1000 tk p ltac:(lra) ltac:(lra)); lra.
+  }
   destruct (Rle_dec tk 560).
-  {
-    assert (25000000 <= p) by (apply H25; lra).
+  { intros Hp.
+    destruct (Rle_dec p 25000000); [pose proof (tile_545_560_56_250 tk p ltac:(lra) ltac:(lra)); lra|].
     destruct (Rle_dec p 50000000); [pose proof (tile_534_560_250_500 tk p ltac:(lra) ltac:(lra)); lra|].
     pose proof (tile_534_560_500_1000 tk p ltac:(lra) ltac:(lra)); lra.
   }
   destruct (Rle_dec tk 574).
-  {
-    assert (25000000 <= p) by (apply H25; lra).
+  { intros Hp.
+    destruct (Rle_dec p 25000000); [pose proof (tile_560_574_125_250 tk p ltac:(lra) ltac:(lra)); lra|].
     destruct (Rle_dec p 50000000); [pose proof (tile_560_574_250_500 tk p ltac:(lra) ltac:(lra)); lra|].
     pose proof (tile_560_574_500_1000 tk p ltac:(lra) ltac:(lra)); lra.
   }
+  destruct (Rle_dec tk 586).
+  { intros Hp.
+    destruct (Rle_dec p 50000000); [pose proof (tile_574_586_175_500 tk p ltac:(lra) ltac:(lra)); lra|].
+    pose proof (tile_574_600_500_1000 tk p ltac:(lra) ltac:(lra)); lra.
+  }
   destruct (Rle_dec tk 600).
-  {
-    assert (25000000 <= p) by (apply H25; lra).
-    assert (50000000 <= p) by (apply H50; lra).
+  { intros Hp.
+    destruct (Rle_dec p 50000000); [pose proof (tile_586_600_250_500 tk p ltac:(lra) ltac:(lra)); lra|].
     pose proof (tile_574_600_500_1000 tk p ltac:(lra) ltac:(lra)); lra.
   }
   destruct (Rle_dec tk 612).
-  {
-    assert (25000000 <= p) by (apply H25; lra).
-    assert (50000000 <= p) by (apply H50; lra).
+  { intros Hp.
+    destruct (Rle_dec p 50000000); [pose proof (tile_600_612_300_500 tk p ltac:(lra) ltac:(lra)); lra|].
     pose proof (tile_600_612_500_1000 tk p ltac:(lra) ltac:(lra)); lra.
   }
-  assert (50000000 <= p) by (apply H50; lra).
+  intros Hp.
+  destruct (Rle_dec p 50000000); [pose proof (tile_612_624_400_500 tk p ltac:(lra) ltac:(lra)); lra|].
   pose proof (tile_612_624_500_1000 tk p ltac:(lra) ltac:(lra)); lra.
 Qed.
 
